@@ -219,6 +219,11 @@ func newOperator(expr parser.Expr, storage *engstore.SelectorPool, opts *query.O
 		return exchange.NewConcurrent(next, 2), nil
 
 	case *parser.BinaryExpr:
+		// As in the Prometheus engine, function and grouping hints only
+		// describe functions and aggregations over a single metric.
+		hints.Func = ""
+		hints.Grouping = nil
+		hints.By = false
 		if e.LHS.Type() == parser.ValueTypeScalar || e.RHS.Type() == parser.ValueTypeScalar {
 			return newScalarBinaryOperator(e, storage, opts, hints)
 		}
@@ -226,6 +231,9 @@ func newOperator(expr parser.Expr, storage *engstore.SelectorPool, opts *query.O
 		return newVectorBinaryOperator(e, storage, opts, hints)
 
 	case *parser.ParenExpr:
+		// Grouping hints are only given to the direct operand of an aggregation.
+		hints.Grouping = nil
+		hints.By = false
 		return newOperator(e.Expr, storage, opts, hints)
 
 	case *parser.StringLiteral:
@@ -233,6 +241,8 @@ func newOperator(expr parser.Expr, storage *engstore.SelectorPool, opts *query.O
 		return nil, errors.Wrapf(parse.ErrNotImplemented, "got: %s", e)
 
 	case *parser.UnaryExpr:
+		hints.Grouping = nil
+		hints.By = false
 		next, err := newOperator(e.Expr, storage, opts, hints)
 		if err != nil {
 			return nil, err
@@ -253,6 +263,8 @@ func newOperator(expr parser.Expr, storage *engstore.SelectorPool, opts *query.O
 		case *parser.NumberLiteral:
 			return scan.NewNumberLiteralSelector(model.NewVectorPool(stepsBatch), opts, t.Val), nil
 		}
+		hints.Grouping = nil
+		hints.By = false
 		next, err := newOperator(e.Expr, storage, opts.WithEndTime(opts.Start), hints)
 		if err != nil {
 			return nil, err
